@@ -18,8 +18,12 @@ engines = {
     "E2-frame": {"name": "E2-frame", "path": "vt/frame.py", "serves_properties": [], "kind_free_text": "frame (modifies) and RNG-ownership clauses discharged by a conservative flow-sensitive alias/effect analysis of the real AST; deductive"},
     "E3-E4-rtc": {"name": "E3-E4-rtc", "path": "vt/executor.py", "serves_properties": [], "kind_free_text": "bounded stand-in: the same contracts evaluated at run time on the real functions (sympy-symbol entries per configuration, constructed ground truth, certificates); never counted as proved"},
 }
+CLAIMED = json.load(open(os.path.join(HERE, "tools", "claimed.json")))
 for p in props:
     pid = p["id"]
+    if pid not in CLAIMED:
+        na.append({"property_id": pid, "reason": NA.get(pid) or "check not integrated yet (build in progress; DESIGN.md section 8)"})
+        continue
     try:
         mod = importlib.import_module("props." + pid)
     except ModuleNotFoundError:
